@@ -236,6 +236,29 @@ package throttle
 //@   option allow-exit yes
 //@   requires typeis(config, "*github.com/ozontech/file.d/plugin/action/throttle.Config") && params != nil
 //@   assert at "distrCfg := p.config.LimitDistribution.toInternal()" p.config.BucketInterval_ > 0 && p.config.BucketsCount >= 1
+//@   ghost nrule int = 0
+//@   loop 1 invariant -1 <= rangeindex && nrule == rangeindex + 1 && nrule <= len(p.config.Rules)
+//@   callee newRule(c, l, n) (r)
+//@     requires n == nrule && nrule <= len(p.config.Rules)
+//@     requires nrule < len(p.config.Rules) ==> l.value == p.config.Rules[nrule].Limit
+//@     requires nrule == len(p.config.Rules) ==> l.value == p.config.DefaultLimit
+//@     pure
+//@     set nrule := nrule + 1
+//@   callee SliceStable(x, less)
+//@     requires false
+//@   callee Slice(x, less)
+//@     requires false
+//@   callee Sort(x)
+//@     requires false
+//@   callee SortFunc(x, cmp)
+//@     requires false
+//@   callee SortStableFunc(x, cmp)
+//@     requires false
+
+// (C16 "the limit selected by the first matching rule": the rules are tried in the order
+// they stand in p.rules - isAllowed's contract; here: that order is the configuration's,
+// rule k carries number k and the k-th configured limit, the default rule comes last, and
+// nothing re-orders the list.)
 
 // timeToBucketID: the bucket of a time is its nanosecond count divided by the interval's
 // nanosecond count (not a coarser unit: Duration.Milliseconds truncates, and two times
